@@ -900,8 +900,6 @@ def pilot_replay(spec: Dict[str, Any], history: Any, timeout: float = 120.0) -> 
     steps = list(hh.micro)
     want = list(hh.obs_log)
     hdir = hh.dir
-    hh_dirname = hh.dir
-    del hh_dirname
     # second, independent session for the real app
     ph = Harness.__new__(Harness)
     global _counter
